@@ -82,6 +82,45 @@ def propagate (fromWants toWants : Bool) (src dst : Slot) : Res :=
         else if dataEq d.data fs.data then ⟨dst, false, false, 0⟩
         else ⟨some ⟨true, .owner, fs.data⟩, true, false, 1⟩
 
+/-! ### the same two writers in an environment
+
+`miss`: the writer's Get of the destination goes through the informer cache, which has not
+seen an existing secret yet (the Get answers NotFound, the Create that follows is refused with
+AlreadyExists). `swap`: a concurrent writer acts between the propagator's Get of the
+destination and its Update: it replaces the XR's secret and touches the claim's secret, so the
+Update is refused with a Conflict (the publisher's merge patch carries no resourceVersion and
+is not affected). -/
+
+structure Env where
+  miss : Bool := false
+  swap : Bool := false
+  deriving DecidableEq, Repr, Inhabited
+
+def publishE (e : Env) (wants : Bool) (filter : List String) (details : Data) (slot : Slot) : Res :=
+  if !wants then ⟨slot, false, false, 0⟩ else
+  match slot with
+  | some _ => if e.miss then ⟨slot, false, true, 1⟩ else publish wants filter details slot
+  | none => publish wants filter details slot
+
+def propagateE (e : Env) (fromWants toWants : Bool) (src dst : Slot) : Res :=
+  if !fromWants || !toWants then ⟨dst, false, false, 0⟩ else
+  match src with
+  | none => ⟨dst, false, true, 0⟩
+  | some fs =>
+    if fs.ctrl ≠ .xr then ⟨dst, false, true, 0⟩
+    else match dst with
+      | none => ⟨some ⟨true, .owner, fs.data⟩, true, false, 1⟩
+      | some d =>
+        if e.miss then ⟨dst, false, true, 1⟩
+        else if !controllable d .owner then ⟨dst, false, true, 0⟩
+        else if dataEq d.data fs.data then ⟨dst, false, false, 0⟩
+        else if e.swap then ⟨dst, false, true, 1⟩
+        else ⟨some ⟨true, .owner, fs.data⟩, true, false, 1⟩
+
+/-- what the concurrent writer leaves in place of the XR's secret -/
+def swappedSource (src : Slot) : Slot :=
+  some ⟨(src.map (·.conn)).getD true, .other, [("admin-token", "s3cr3t")]⟩
+
 structure Cfg where
   type : String
   name : String
